@@ -82,6 +82,9 @@ def gen_numeric(rng, spec, cfg, closure_names, i):
     cls = spec["objs"][name]["cls"]
     cur = spec["objs"][name]["attrs"][attr]
     v = new_quantity(rng, cls, attr, cur, cfg.get("nice_numbers", False))
+    if attr in ("user_time_spent", "request_duration", "video_duration", "data_storage_duration") and rng.random() < 0.2:
+        # durations around whole-hour boundaries (hour shifts, full hours of a request, dumps inside the period)
+        v = ["q", float(rng.choice([59.0, 60.0, 61.0, 125.0, 30.0, 2.5, 190.0])), "min"]
     if attr == "request_duration" and v[1] == 0:
         v[1] = 0.5
     if attr == "data_stored" and cur[1] < 0:
